@@ -207,10 +207,7 @@ impl Response {
             let content_length: usize = content_length
                 .parse()
                 .map_err(|_| ResponseError::Response)?;
-            let mut content_buf: Vec<u8> = vec![0u8; content_length];
-            reader
-                .read_exact(&mut content_buf)
-                .map_err(|_| ResponseError::Stream)?;
+            let content_buf = read_exact_vec(&mut reader, content_length).ok_or(ResponseError::Stream)?;
 
             Ok(Self {
                 version,
@@ -274,10 +271,24 @@ where
         stream.read_exact(&mut [0u8, 0]).ok()?;
         None
     } else {
-        let mut content_buf: Vec<u8> = vec![0u8; length];
-        stream.read_exact(&mut content_buf).ok()?;
+        let content_buf = read_exact_vec(stream, length)?;
         stream.read_exact(&mut [0u8, 0]).ok()?;
         Some(content_buf)
+    }
+}
+
+/// Reads exactly `length` bytes, growing the buffer as data arrives instead of allocating the claimed length up front.
+fn read_exact_vec<T>(stream: &mut T, length: usize) -> Option<Vec<u8>>
+where
+    T: Read,
+{
+    let mut buf: Vec<u8> = Vec::new();
+    stream.take(length as u64).read_to_end(&mut buf).ok()?;
+
+    if buf.len() == length {
+        Some(buf)
+    } else {
+        None
     }
 }
 
